@@ -152,6 +152,8 @@ func (s *SSTableManager) candidateTablesForCompaction(compactionMaxSizeBytes uin
 	return compactionAction{
 		pathsToCompact: selectedPaths,
 		totalRecords:   numRecords,
+		// tombstones may only be dropped when there is no older table left that they could still shadow
+		includesOldestTable: len(selectedForCompaction) > 0 && selectedForCompaction[0],
 	}
 }
 
